@@ -82,12 +82,30 @@ func (h OperatorHooksWrapper) AfterOperatorKeyRemovalInitiated(
 	consAddr := key.ToConsAddr()
 	if chainID == avstypes.ChainIDWithoutRevision(ctx.ChainID()) {
 		_, found := h.keeper.GetExocoreValidator(ctx, consAddr)
+		if !found {
+			// the operator may have replaced its key during this epoch, in which case it
+			// is still validating with the previous key until the epoch ends.
+			hasPrevKey, prevKey, _ := h.keeper.operatorKeeper.GetOperatorPrevConsKeyForChainID(
+				ctx, operator, chainID,
+			)
+			if hasPrevKey {
+				_, found = h.keeper.GetExocoreValidator(ctx, prevKey.ToConsAddr())
+			}
+		}
 		if found {
 			h.keeper.SetOptOutInformation(ctx, operator)
 		} else {
-			h.keeper.operatorKeeper.DeleteOperatorAddressForChainIDAndConsAddr(
-				ctx, chainID, consAddr,
-			)
+			// the operator never validated with this key, so there is nothing to wait for.
+			// complete the removal right away; otherwise the removal marker (and the key)
+			// would stay forever since no opt out completion is scheduled.
+			if err := h.keeper.operatorKeeper.CompleteOperatorKeyRemovalForChainID(
+				ctx, operator, chainID,
+			); err != nil {
+				h.keeper.Logger(ctx).Error(
+					"error completing operator key removal",
+					"operator", operator, "error", err,
+				)
+			}
 		}
 	}
 }
